@@ -169,6 +169,10 @@ Definition zero_of (ty : string) : gval :=
        | None => if String.eqb ty "int" || String.eqb ty "int64" || String.eqb ty "int32" then VInt 0 else VNil
        end.
 
+(* calls evaluated by the semantics itself *)
+Definition is_builtin (fn : string) : bool :=
+  String.eqb fn "make" || String.eqb fn "append" || String.eqb fn "append...".
+
 Section Eval.
 Variable ext : externs.
 
@@ -416,8 +420,11 @@ Fixpoint exec (fuel : nat) (e : env) (ss : list gstmt) {struct fuel} : sres :=
           end
         end
       | SAssign lhs rhs =>
-        match rhs with
-        | [ECall fn args] =>
+        match (match rhs with
+               | [ECall fn args] => if is_builtin fn then None else Some (fn, args)
+               | _ => None
+               end) with
+        | Some (fn, args) =>
           match (fix evs (l : list gexpr) : option (list gval) :=
                    match l with
                    | [] => Some []
@@ -429,7 +436,7 @@ Fixpoint exec (fuel : nat) (e : env) (ss : list gstmt) {struct fuel} : sres :=
                        end
           | None => stuck "call args"
           end
-        | _ =>
+        | None =>
           match (fix evs (l : list gexpr) : option (list gval) :=
                    match l with
                    | [] => Some []
